@@ -279,8 +279,12 @@ structure Life where
   inU : Incoming
   /-- stream id ↦ final offset (a STREAM frame with FIN was received) -/
   fin : List (Int × Int) := []
-  /-- the application read the EOF -/
+  /-- the receive half is done: the application read the EOF, or it cancelled reading and the final size is known -/
   recvDone : List Int := []
+  /-- the application read the EOF -/
+  eofRead : List Int := []
+  /-- the application cancelled reading (`CancelRead`) -/
+  cancelled : List Int := []
   /-- the application closed its send side; the FIN has not left yet -/
   sendClosed : List Int := []
   /-- the FIN was sent and acknowledged -/
@@ -356,6 +360,33 @@ inductive FrameOut | ok | err (e : String) | gray
 
 def Glue.finOf (g : Glue) (sid : Int) : Option Int := (g.life.fin.find? (·.1 == sid)).map (·.2)
 
+/-- `Conn.onStreamCompleted` once both halves of a stream are done (a receive-only stream has one half):
+    `DeleteStream` on the incoming map; a MAX_STREAMS frame is queued when the stream had been accepted -/
+def Glue.checkCompleted (g : Glue) (sid : Int) : Glue :=
+  match sidKind sid with
+  | .serverUni =>
+    if g.life.recvDone.contains sid then
+      let r := g.life.inU.deleteStream sid
+      { g with life := { g.life with inU := r.1, ms := g.life.ms ++ msOf [{ frames := r.2.2 }] } }
+    else g
+  | .serverBidi =>
+    if g.life.recvDone.contains sid && g.life.sendDone.contains sid then
+      let r := g.life.inB.deleteStream sid
+      { g with life := { g.life with inB := r.1, ms := g.life.ms ++ msOf [{ frames := r.2.2 }] } }
+    else g
+  | _ => g   -- a stream of the client: the outgoing map, nothing the peer was promised
+
+/-- the receive half of a cancelled stream completes once its final size is known: `Abandon` hands the unread
+    bytes back to the connection's window, then `onStreamCompleted` -/
+def Glue.abandon (g : Glue) (sid : Int) : Glue :=
+  match g.stream? sid with
+  | none => g
+  | some st =>
+    let unread := st.highest - st.bytesRead
+    let g1 := { g.setStream sid { st with bytesRead := st.highest } with
+                conn := { g.conn with bytesRead := g.conn.bytesRead + (if unread > 0 then unread else 0) } }
+    ({ g1 with life := { g1.life with recvDone := g1.life.recvDone ++ [sid] } }).checkCompleted sid
+
 /-- a STREAM frame for a stream that exists: the receive side of the flow controllers, the final offset -/
 def Glue.accept (g : Glue) (nowUs sid off len : Int) (fin : Bool) : Glue × FrameOut × List String :=
   let st := g.getStream sid
@@ -368,7 +399,11 @@ def Glue.accept (g : Glue) (nowUs sid off len : Int) (fin : Bool) : Glue × Fram
   let r := recvData st g.conn (off + len) (nowUs * 1000)
   let g1 := { g.setStream sid r.1 with conn := r.2.1 }
   if r.2.2 then (g1, .err (errText Limits.FlowControlError), ["f:strm:flow"])
-  else if fin then ({ g1 with life := { g1.life with fin := g1.life.fin ++ [(sid, off + len)] } }, .ok, ["f:strm:fin"])
+  else if fin then
+    let g2 := { g1 with life := { g1.life with fin := g1.life.fin ++ [(sid, off + len)] } }
+    -- (a stream the application stopped reading completes here: the final size is what was missing)
+    if g2.life.cancelled.contains sid && !g2.life.recvDone.contains sid then (g2.abandon sid, .ok, ["f:strm:fin", "life:abandoned-at-fin"])
+    else (g2, .ok, ["f:strm:fin"])
   else (g1, .ok, ["f:strm:data"])
 
 /-- a STREAM frame for a stream of the server: `GetOrOpenStream` of the incoming map first -/
@@ -445,22 +480,6 @@ def Glue.acceptNext (g : Glue) (uni : Bool) : Glue × Option Int :=
   ({ g with life := if uni then { g.life with inU := r.1, ms := g.life.ms ++ r.2.2 }
                     else { g.life with inB := r.1, ms := g.life.ms ++ r.2.2 } }, r.2.1)
 
-/-- `Conn.onStreamCompleted` once both halves of a stream are done (a receive-only stream has one half):
-    `DeleteStream` on the incoming map; a MAX_STREAMS frame is queued when the stream had been accepted -/
-def Glue.checkCompleted (g : Glue) (sid : Int) : Glue :=
-  match sidKind sid with
-  | .serverUni =>
-    if g.life.recvDone.contains sid then
-      let r := g.life.inU.deleteStream sid
-      { g with life := { g.life with inU := r.1, ms := g.life.ms ++ msOf [{ frames := r.2.2 }] } }
-    else g
-  | .serverBidi =>
-    if g.life.recvDone.contains sid && g.life.sendDone.contains sid then
-      let r := g.life.inB.deleteStream sid
-      { g with life := { g.life with inB := r.1, ms := g.life.ms ++ msOf [{ frames := r.2.2 }] } }
-    else g
-  | _ => g   -- a stream of the client: the outgoing map, nothing the peer was promised
-
 /-- the application reads up to `n` bytes; returns the number read and whether it saw the EOF
     (`none`: no such stream) -/
 def Glue.read (g : Glue) (sid n : Int) : Glue × Option (Int × Bool) :=
@@ -469,7 +488,8 @@ def Glue.read (g : Glue) (sid n : Int) : Glue × Option (Int × Bool) :=
   | some st =>
     let g := g.acceptFor sid
     if n ≤ 0 then (g, some (0, false)) else
-    if g.finOf sid == some st.bytesRead then (g, some (0, true)) else
+    if g.life.eofRead.contains sid then (g, some (0, true)) else
+    if g.life.cancelled.contains sid then (g, some (0, false)) else
     let got := min n (st.highest - st.bytesRead)
     if got ≤ 0 then (g, some (0, false)) else
     let r := readData st g.conn got
@@ -477,7 +497,8 @@ def Glue.read (g : Glue) (sid n : Int) : Glue × Option (Int × Bool) :=
     let q := if r.2.2 && (g.finOf sid).isNone && !g.queued.contains sid then g.queued ++ [sid] else g.queued
     let g1 := { g.setStream sid r.1 with conn := r.2.1, queued := q }
     if g.finOf sid == some r.1.bytesRead then
-      (({ g1 with life := { g1.life with recvDone := g1.life.recvDone ++ [sid] } }).checkCompleted sid, some (got, true))
+      (({ g1 with life := { g1.life with recvDone := g1.life.recvDone ++ [sid], eofRead := g1.life.eofRead ++ [sid] } }).checkCompleted sid,
+       some (got, true))
     else (g1, some (got, false))
 
 /-- the application closes the send side of a bidirectional stream it holds (`none`: no such stream) -/
@@ -488,6 +509,18 @@ def Glue.closeSend (g : Glue) (sid : Int) : Glue × Bool :=
     if g.life.sendClosed.contains sid || g.life.sendDone.contains sid then (g, true)
     else ({ g with life := { g.life with sendClosed := g.life.sendClosed ++ [sid] } }, true)
   | _, _ => (g, false)
+
+/-- the application cancels reading (`CancelRead`; false: no such stream) -/
+def Glue.stopRead (g : Glue) (sid : Int) : Glue × Bool :=
+  match sidKind sid, g.stream? sid with
+  | .clientUni, _ | _, none => (g, false)
+  | _, some _ =>
+    let g := g.acceptFor sid
+    if g.life.cancelled.contains sid then (g, true) else
+    let g1 := { g with life := { g.life with cancelled := g.life.cancelled ++ [sid] } }
+    if g1.life.recvDone.contains sid then (g1, true)
+    else if (g1.finOf sid).isSome then (g1.abandon sid, true)
+    else (g1, true)
 
 /-- what the next packet carries: MAX_DATA (0: none), MAX_STREAM_DATA per queued stream, MAX_STREAMS,
     RETIRE_CONNECTION_ID -/
